@@ -4,7 +4,7 @@ use std::collections::{BTreeMap, BTreeSet};
 
 use bit_vec::BitVec;
 use rand::{seq::SliceRandom, Rng};
-use rand_chacha::ChaCha8Rng;
+use crate::kit::SimRng as ChaCha8Rng;
 use zksync_consensus_roles::validator::{self, v2};
 
 use super::hub::{Committee, Hub};
